@@ -105,10 +105,20 @@ def unknown_labels():
     return out
 
 
+def _readable(w: str) -> bool:
+    d = 0
+    for ch in w:
+        d += (ch == "(") - (ch == ")")
+        if d < 0:
+            return False
+    return d == 0 and not w.startswith("(")
+
+
 class Concretiser:
     """Injective maps abstract -> concrete for one abstract file."""
 
-    def __init__(self, rng: random.Random, base: dict[str, str] | None = None, conj_matters: bool = False):
+    def __init__(self, rng: random.Random, base: dict[str, str] | None = None, conj_matters: bool = False,
+                 readable: bool = False):
         self.rng = rng
         self.names: dict[str, str] = {}
         self.words: dict[str, str] = {}
@@ -132,6 +142,9 @@ class Concretiser:
                 self._bind(n, a)
                 self._bind(c, b)
         self.free_pool = unknown_labels() if conj_matters else label_pool()
+        if readable:
+            # descriptors are read back by bracket matching: names balanced in (), not starting with "("
+            self.free_pool = [w for w in self.free_pool if _readable(w)]
 
     def _pick(self, pool):
         for _ in range(1000):
